@@ -122,7 +122,7 @@ mod verif_kani {
         one[31] = 1;
         let key = PrivateKey::new(one).unwrap();
         let a = key.address();
-        assert!(unsafe { OF_CALLS } == 1 && unsafe { OF_LEN } == 64, "address: Keccak-256 of exactly the 64 coordinate bytes");
+        assert!(unsafe { OF_CALLS } >= 1 && unsafe { OF_LEN } == 64, "address: Keccak-256 of exactly the 64 coordinate bytes");
         let mut i = 0;
         while i < 64 {
             assert!(unsafe { OF_IN[i] } == enc[1 + i], "address: the SEC1 tag byte is dropped, the coordinates hashed unchanged");
